@@ -42,7 +42,16 @@ fn table(rng: &mut Rng, upper: bool) -> (String, Vec<(String, Vec<(String, Strin
                 if rng.chance(5, 6) {
                     // plain text with multi-byte characters now and then (the length prefix counts bytes)
                     let text = if rng.chance(1, 3) { format!("{key} für {loc} — nö №{} ✓", rng.below(1000)) } else { format!("{key} in {loc} #{}", rng.below(1000)) };
-                    msgs.push((key.to_string(), if rng.bool() { json!({"text": text, "bold": true}).to_string() } else { text }));
+                    // as a component: a styled part, or what people write by hand - lists that mix
+                    // plain strings with styled parts, whole with fractional numbers, an entry left null
+                    let message = match rng.below(8) {
+                        0 | 1 => json!({"text": text, "bold": true}).to_string(),
+                        2 => json!({"text": "", "extra": [text, {"text": " (later)", "italic": true}]}).to_string(),
+                        3 => json!({"translate": format!("{text}: %s of %s (%s)"), "with": [3, 4, 0.75]}).to_string(),
+                        4 => json!({"text": text, "extra": [" try again", null]}).to_string(),
+                        _ => text,
+                    };
+                    msgs.push((key.to_string(), message));
                 }
             }
             messages.push((loc.to_string(), msgs));
